@@ -1,4 +1,5 @@
 """C04 HLL union (DESIGN.md section 5 C04; A6)."""
+import triggers
 import hll_rules as H
 import generic_lints
 import hazard_lints
@@ -18,6 +19,8 @@ def run(facts, tier):
         ("register stores", H.register_stores, 10, "every register store is a max"),
         ("reset completeness", lambda fa: c19_rules.reset_completeness(fa, ['hll_union_alloc','hll_sketch_alloc']), 2, "every field a mutator modifies is re-initialised by reset() (a reused object equals a fresh one); reviewed exceptions are configuration fields"),
         ("ooo resets hip", H.ooo_resets_hip, 3, "setting the out-of-order flag zeroes the HIP accumulator of the same array; readers restore the accumulator only for in-order images"),
+        ("structural triggers", lambda fa: triggers.obligations(fa, ['hll_union_alloc']), 6, "the comparisons that decide whether the union copies, down-samples or merges an input keep their reviewed boundary (operator and constants)"),
+        ("delegations", lambda fa: generic_lints.unconditional_delegations(fa, ('hll/',)), 12, "the typed update overloads of the union hand every datum to the gadget unconditionally, like the sketch's own overloads (spec/delegations.json)"),
         ("find() result tests", H.find_result_tests, 4, "the result of the open-addressing find() is only ever split into < 0 (absent) and >= 0 (present, cell 0 included)"),
         ("tautologies", lambda fa: generic_lints.tautologies(fa, ('hll/',)), 2, "no comparison / assignment / min-max with two identical operands, no if-else with identical arms"),
         ("hazards", lambda fa: hazard_lints.hazards(fa, ('hll/',)), 2, "no 64-bit value silently narrowed at a call of a library function, no numeric_limits<floating>::min() as a lowest value, no random engine constructed inside a loop, no read of a moved-from parameter, no unguarded unsigned `x - c` loop bound (reviewed instances in spec/hazards.json)"),
